@@ -66,3 +66,43 @@ def split_list(items, n):
     n = max(1, min(n, len(items)))
     step = (len(items) + n - 1) // n
     return [items[a:a + step] for a in range(0, len(items), step)]
+
+
+# ------------------------------------------------------------------------------------------------
+# Gaussian alphabet (C05, C06): Sigma = L L^T, L lower triangular, off-diagonals in {-1,0,1},
+# diagonal in {1,2}  =>  integer, positive definite, det = prod(diag)^2 >= 1.
+
+def lower_factors(p, diag_choices=None):
+    import itertools
+    offs = [(i, j) for i in range(p) for j in range(i)]
+    diags = list(itertools.product((1, 2), repeat=p)) if diag_choices is None else diag_choices
+    for dg in diags:
+        for vals in itertools.product((-1, 0, 1), repeat=len(offs)):
+            L = [[0] * p for _ in range(p)]
+            for i in range(p):
+                L[i][i] = dg[i]
+            for (i, j), v in zip(offs, vals):
+                L[i][j] = v
+            yield L
+
+
+def sigma_of(L):
+    p = len(L)
+    return [[sum(L[i][k] * L[j][k] for k in range(p)) for j in range(p)] for i in range(p)]
+
+
+MEANS = {1: [[0], [-1.5]], 2: [[0, 0], [1, -2.5]], 3: [[0, 0, 0], [1, -2.5, 0.75]], 4: [[0, 0, 0, 0], [1, -2.5, 0.75, 3]]}
+
+
+def ordered_disjoint_pairs(p, min_y=1):
+    """All (Y, X): ordered sequences of distinct indices, Y non-empty, disjoint."""
+    import itertools
+    out = []
+    idx = range(p)
+    for ky in range(min_y, p + 1):
+        for Y in itertools.permutations(idx, ky):
+            rest = [i for i in idx if i not in Y]
+            for kx in range(0, len(rest) + 1):
+                for X in itertools.permutations(rest, kx):
+                    out.append((list(Y), list(X)))
+    return out
